@@ -123,3 +123,27 @@ Proof.
   vm_compute. intuition.
 Qed.
 Print Assumptions C13_hypotheses_inhabited.
+
+(** ------------------------------------------------------------------
+    Histories with dictionary OBJECTS, in-place rewriting and the checkers (Compile/HistoryCheckers.v): the compiled
+    object is the triple (codec, type checkers, constraints checkers); a world holds dictionary objects with an identity
+    and a one-entry memo of "the dictionary compiled last" under a policy.  For every policy that keeps no memo (what
+    /repo does) or keys it by identity AND options, every history of compile / copy / foreign-compile steps yields, for
+    the dictionary and the whole triple, what the pure compile of the dictionary as parsed yields - also for every object
+    compiled DURING the history.  A memo keyed by identity alone is refuted (ber with names, then uper with numbers: the
+    type checkers are the stale ones) and a foreign compile in between hides that defect.
+    (statements = the types of the theorems of Compile/HistoryCheckersProofs.v; harness/c13_seq.py compares the flags
+    the model predicts with the objects /repo compiles after every history) *)
+From Asn1V Require Compile.HistoryCheckers Compile.HistoryCheckersProofs.
+
+Theorem C13_stateful_history_independent : ltac:(let T := type of @Asn1V.Compile.HistoryCheckersProofs.stateful_history_independent in exact T).
+Proof. exact @Asn1V.Compile.HistoryCheckersProofs.stateful_history_independent. Qed.
+Print Assumptions C13_stateful_history_independent.
+
+Theorem C13_stateful_collect_independent : ltac:(let T := type of @Asn1V.Compile.HistoryCheckersProofs.stateful_collect_independent in exact T).
+Proof. exact @Asn1V.Compile.HistoryCheckersProofs.stateful_collect_independent. Qed.
+Print Assumptions C13_stateful_collect_independent.
+
+Theorem C13_memo_identity_refuted : ltac:(let T := type of @Asn1V.Compile.HistoryCheckersProofs.memo_identity_refuted in exact T).
+Proof. exact @Asn1V.Compile.HistoryCheckersProofs.memo_identity_refuted. Qed.
+Print Assumptions C13_memo_identity_refuted.
